@@ -50,6 +50,7 @@ type e2e struct {
 	killAtWrite  int
 	killTorn     int
 	c04          *oC04
+	hq           *HQModel
 	jobPath      string
 	summary      map[string]any
 }
